@@ -48,6 +48,13 @@ func desugarTableLoops(p *Prog) int {
 				}
 			}
 		}
+		for _, f := range pk.Syntax {
+			for _, d := range f.Decls {
+				if fd, ok := d.(*ast.FuncDecl); ok {
+					n += inlineElementAliases(info, fd)
+				}
+			}
+		}
 		baseObj := func(e ast.Expr) types.Object {
 			for {
 				switch x := ast.Unparen(e).(type) {
@@ -720,4 +727,219 @@ func purePath(info *types.Info, e ast.Expr) bool {
 			return false
 		}
 	}
+}
+
+// inlineElementAliases rewrites, in a loop over a table T by index i,
+//
+//	e := &T[i]; … e.f … e.g …        as        … T[i].f … T[i].g …
+//
+// when e is nothing but a shorthand for reading the element: defined once, directly in the loop body, every use a read of
+// one of its fields (no store through it, no address taken, no method called on it, not handed on), and neither T nor i
+// assigned in the body. The pointer is then unobservable, and the loop reads like the one written with T[i] — which
+// the unroller knows. Returns the number of aliases removed.
+func inlineElementAliases(info *types.Info, fd *ast.FuncDecl) int {
+	if fd.Body == nil {
+		return 0
+	}
+	n := 0
+	parents := parentMap(fd.Body)
+	loopOf := func(body *ast.BlockStmt) (tbl, idx types.Object) {
+		switch l := parents[body].(type) {
+		case *ast.RangeStmt:
+			if l.Body != body || l.Tok != token.DEFINE {
+				return nil, nil
+			}
+			if v, ok := l.Value.(*ast.Ident); l.Value != nil && (!ok || v.Name != "_") {
+				return nil, nil
+			}
+			k, ok1 := l.Key.(*ast.Ident)
+			t, ok2 := ast.Unparen(l.X).(*ast.Ident)
+			if !ok1 || !ok2 {
+				return nil, nil
+			}
+			return info.ObjectOf(t), info.Defs[k]
+		case *ast.ForStmt:
+			if l.Body != body {
+				return nil, nil
+			}
+			if rs := countingAsRange(info, l); rs != nil {
+				k, ok1 := rs.Key.(*ast.Ident)
+				t, ok2 := ast.Unparen(rs.X).(*ast.Ident)
+				if ok1 && ok2 {
+					return info.ObjectOf(t), info.Defs[k]
+				}
+			}
+		}
+		return nil, nil
+	}
+	var bodies []*ast.BlockStmt
+	ast.Inspect(fd.Body, func(k ast.Node) bool {
+		if b, ok := k.(*ast.BlockStmt); ok {
+			bodies = append(bodies, b)
+		}
+		return true
+	})
+	defs := singleDefs(info, fd.Body)
+	for _, body := range bodies {
+		tbl, idx := loopOf(body)
+		if tbl == nil || idx == nil {
+			continue
+		}
+		// only tables written out in the function (the loops the unroller may take apart): elsewhere `v := &xs[i]` stays
+		// as written
+		if d, ok := defs[tbl]; !ok || d.pos != 0 || d.n != 1 || d.rhs == nil {
+			continue
+		} else if _, isLit := ast.Unparen(d.rhs).(*ast.CompositeLit); !isLit {
+			continue
+		}
+		// T and i are not written in the body
+		written := false
+		ast.Inspect(body, func(k ast.Node) bool {
+			base := func(e ast.Expr) types.Object {
+				for {
+					switch x := ast.Unparen(e).(type) {
+					case *ast.Ident:
+						return info.ObjectOf(x)
+					case *ast.IndexExpr:
+						e = x.X
+					case *ast.SelectorExpr:
+						e = x.X
+					case *ast.StarExpr:
+						e = x.X
+					default:
+						return nil
+					}
+				}
+			}
+			switch x := k.(type) {
+			case *ast.AssignStmt:
+				if x.Tok != token.DEFINE {
+					for _, l := range x.Lhs {
+						if o := base(l); o != nil && (o == tbl || o == idx) {
+							written = true
+						}
+					}
+				}
+			case *ast.IncDecStmt:
+				if o := base(x.X); o != nil && (o == tbl || o == idx) {
+					written = true
+				}
+			}
+			return !written
+		})
+		if written {
+			continue
+		}
+		for si := 0; si < len(body.List); si++ {
+			as, ok := body.List[si].(*ast.AssignStmt)
+			if !ok || as.Tok != token.DEFINE || len(as.Lhs) != 1 || len(as.Rhs) != 1 {
+				continue
+			}
+			pid, ok := as.Lhs[0].(*ast.Ident)
+			if !ok || pid.Name == "_" {
+				continue
+			}
+			u, ok := ast.Unparen(as.Rhs[0]).(*ast.UnaryExpr)
+			if !ok || u.Op != token.AND {
+				continue
+			}
+			ix, ok := ast.Unparen(u.X).(*ast.IndexExpr)
+			if !ok {
+				continue
+			}
+			tid, ok1 := ast.Unparen(ix.X).(*ast.Ident)
+			iid, ok2 := ast.Unparen(ix.Index).(*ast.Ident)
+			if !ok1 || !ok2 || info.ObjectOf(tid) != tbl || info.Uses[iid] != idx {
+				continue
+			}
+			pobj := info.Defs[pid]
+			if pobj == nil {
+				continue
+			}
+			// every use of p: the X of a field selector that is read
+			var sels []*ast.SelectorExpr
+			fine := true
+			ast.Inspect(fd.Body, func(k ast.Node) bool {
+				id, ok := k.(*ast.Ident)
+				if !ok || info.Uses[id] != pobj {
+					return fine
+				}
+				sel, ok := parents[id].(*ast.SelectorExpr)
+				if !ok || sel.X != ast.Expr(id) {
+					fine = false
+					return false
+				}
+				if s, ok := info.Selections[sel]; !ok || s.Kind() != types.FieldVal {
+					fine = false
+					return false
+				}
+				// climb the path p.f.g[k]… to its top and see what is done with it
+				var cur ast.Node = sel
+				for {
+					up := parents[cur]
+					switch x := up.(type) {
+					case *ast.ParenExpr:
+						cur = x
+						continue
+					case *ast.SelectorExpr:
+						if x.X == cur {
+							if s, ok := info.Selections[x]; !ok || s.Kind() != types.FieldVal {
+								fine = false // a method on (part of) the element may write to it
+								return false
+							}
+							cur = x
+							continue
+						}
+					case *ast.IndexExpr:
+						if x.X == cur {
+							cur = x
+							continue
+						}
+					case *ast.AssignStmt:
+						for _, l := range x.Lhs {
+							if ast.Node(l) == cur {
+								fine = false
+							}
+						}
+					case *ast.IncDecStmt:
+						fine = false
+					case *ast.UnaryExpr:
+						if x.Op == token.AND {
+							fine = false
+						}
+					case *ast.SliceExpr:
+						if x.X == cur {
+							fine = false
+						}
+					}
+					break
+				}
+				sels = append(sels, sel)
+				return fine
+			})
+			if !fine || len(sels) == 0 {
+				continue
+			}
+			for _, sel := range sels {
+				old := sel.X
+				nix := &ast.IndexExpr{X: &ast.Ident{NamePos: old.Pos(), Name: tid.Name}, Lbrack: old.Pos(), Index: &ast.Ident{NamePos: old.Pos(), Name: iid.Name}, Rbrack: old.End()}
+				info.Uses[nix.X.(*ast.Ident)] = tbl
+				info.Uses[nix.Index.(*ast.Ident)] = idx
+				if tv, ok := info.Types[tid]; ok {
+					info.Types[nix.X] = tv
+				}
+				if tv, ok := info.Types[iid]; ok {
+					info.Types[nix.Index] = tv
+				}
+				if tv, ok := info.Types[ix]; ok {
+					info.Types[nix] = tv
+				}
+				sel.X = nix
+			}
+			body.List = append(body.List[:si:si], body.List[si+1:]...)
+			si--
+			n++
+		}
+	}
+	return n
 }
